@@ -2324,8 +2324,10 @@ where
                     // Expand 1-bit samples to 0/255 bytes for all frames
                     let frame_pixels = (rows as usize) * (cols as usize);
                     let frame_samples = frame_pixels * (samples_per_pixel as usize);
-                    let frame_size = frame_samples / 8;
-                    let frame_size_all = frame_size * (number_of_frames as usize);
+                    // bits are packed continuously across frames,
+                    // so only the very last byte may be partially used
+                    let total_samples = frame_samples * (number_of_frames as usize);
+                    let frame_size_all = total_samples.div_ceil(8);
 
                     let frame_data = data.get(0..frame_size_all).context(FrameOutOfRangeSnafu {
                         frame_number: frame_size_all as u32,
@@ -2476,29 +2478,37 @@ where
                 // Non-encoded, just return the pixel data for a single frame
                 let frame_pixels = (rows as usize) * (cols as usize);
                 let frame_samples = frame_pixels * (samples_per_pixel as usize);
-                let frame_size = if bits_allocated == 1 {
-                    frame_samples / 8
-                } else {
-                    frame_samples * (bits_allocated.div_ceil(8) as usize)
-                };
-                let frame_offset = frame_size * (frame as usize);
-
                 let data = p.to_bytes();
 
-                let frame_data = data.get(frame_offset..frame_offset + frame_size).context(
-                    FrameOutOfRangeSnafu {
-                        frame_number: frame,
-                    },
-                )?;
-
                 if bits_allocated == 1 {
+                    // bits are packed continuously across frames,
+                    // so a frame may start and end in the middle of a byte
+                    let bit_start = frame_samples * (frame as usize);
+                    let bit_end = bit_start + frame_samples;
+
+                    let frame_data = data.get(bit_start / 8..bit_end.div_ceil(8)).context(
+                        FrameOutOfRangeSnafu {
+                            frame_number: frame,
+                        },
+                    )?;
+
                     // Map every bit in each byte to a separate byte of either 0 or 255
                     frame_data
                         .iter()
                         .flat_map(|&byte| (0..8).map(move |bit| ((byte >> bit) & 1) * 255))
+                        .skip(bit_start % 8)
                         .take(frame_pixels)
                         .collect()
                 } else {
+                    let frame_size = frame_samples * (bits_allocated.div_ceil(8) as usize);
+                    let frame_offset = frame_size * (frame as usize);
+
+                    let frame_data = data.get(frame_offset..frame_offset + frame_size).context(
+                        FrameOutOfRangeSnafu {
+                            frame_number: frame,
+                        },
+                    )?;
+
                     frame_data.to_vec()
                 }
             }
